@@ -44,7 +44,7 @@ fn ldro_rule_sx126x() {
     }
 }
 
-//@h id=ldro_bit_sx126x props=C15,C13 tier=quick build=phy cost=60 timeout=900
+//@h id=ldro_bit_sx126x props=C15 tier=quick build=phy cost=60 timeout=900
 //@bounds SX126x set_modulation_params with the LDRO flag symbolic (SF12/125 kHz, any CR): byte 4 of SetModulationParams equals the flag
 //@encodes Sx126x::set_modulation_params
 #[kani::proof]
@@ -110,7 +110,7 @@ fn tx_power_step<C: Sx126xVariant>(mut r: Sx126x<MockSpi, MockIv, C>, hp: bool, 
     kani::cover!(req == 22, "22 dBm");
 }
 
-//@h id=tx_power_sx1262 props=C17,C13 tier=quick build=phy cost=40 timeout=900
+//@h id=tx_power_sx1262 props=C17 tier=quick build=phy cost=40 timeout=900
 //@bounds every i32 power request, both ramp selections, any frequency >= 400 MHz, arbitrary TxClampCfg register content
 //@encodes Sx126x::set_tx_power_and_ramp_time, set_pa_config, PaTable::lookup, SX1262_PA_TABLE
 #[kani::proof]
@@ -118,7 +118,7 @@ fn tx_power_step<C: Sx126xVariant>(mut r: Sx126x<MockSpi, MockIv, C>, hp: bool, 
 fn tx_power_sx1262() {
     tx_power_step(radio_1262(), true, false);
 }
-//@h id=tx_power_sx1261 props=C17,C13 tier=quick build=phy cost=40 timeout=900
+//@h id=tx_power_sx1261 props=C17 tier=quick build=phy cost=40 timeout=900
 //@bounds every i32 power request, both ramp selections, any frequency >= 400 MHz
 //@encodes Sx126x::set_tx_power_and_ramp_time, PaTable::lookup, SX1261_PA_TABLE
 #[kani::proof]
@@ -126,7 +126,7 @@ fn tx_power_sx1262() {
 fn tx_power_sx1261() {
     tx_power_step(radio_1261(), false, false);
 }
-//@h id=tx_power_stm32wl_hp props=C17,C13 tier=quick build=phy cost=40 timeout=900
+//@h id=tx_power_stm32wl_hp props=C17 tier=quick build=phy cost=40 timeout=900
 //@bounds every i32 power request, STM32WL high-power PA table
 //@encodes Sx126x::set_tx_power_and_ramp_time, PaTable::lookup, STM32WL_HP_PA_TABLE
 #[kani::proof]
@@ -135,7 +135,7 @@ fn tx_power_stm32wl_hp() {
     tx_power_step(radio_wl(true), true, true);
 }
 
-//@h id=symb_timeout_sx126x props=C17,C13 tier=quick build=phy cost=40 timeout=900
+//@h id=symb_timeout_sx126x props=C17 tier=quick build=phy cost=40 timeout=900
 //@bounds every u16 symbol count: the mantissa/exponent written by SetLoRaSymbNumTimeout decodes (mant << (2*exp+1)) to at least min(request, 248) symbols
 //@encodes Sx126x::set_lora_symbol_num_timeout
 #[kani::proof]
